@@ -6,7 +6,7 @@
    global index, every attribute/public assignment, ignorePublic, includeSelf, ring mode or any admissible
    neighbour hints with ANY order of arrival, every history of resizes and rebuilds. *)
 From Coq Require Import List Arith Bool ZArith Permutation Lia.
-From DuneV Require Import C04_Model C04_Spec C04_Proofs C04_Proofs_Build C04_Proofs_Sync C04_Proofs_Ring C04_Proofs_Obj.
+From DuneV Require Import C04_Model C04_Spec C04_Proofs C04_Proofs_Build C04_Proofs_Sync C04_Proofs_Ring C04_Proofs_Obj C04_Proofs_Exec.
 Import ListNotations.
 
 (* the merge-join loop (index / oldGlobal / restart at oldLocalIndex) never runs out of fuel and returns the join
@@ -119,18 +119,48 @@ Theorem C04_rebuild_current : forall (content result : Type) (buildf : content -
 Proof. exact P_rebuild_current. Qed.
 Print Assumptions C04_rebuild_current.
 
-(* The ring cannot deadlock: ORDERING FORM.  Every rendezvous (round, sender) gets a time stamp such that the calls of
-   every rank -- even ranks Ssend then Recv, odd ranks Recv then Ssend, P-1 rounds -- have strictly increasing stamps,
-   for every P >= 2 (odd P: the two even neighbours P-1 and 0 are ordered by the middle phase); and every Ssend meets
-   its Recv in the same round under the same identity.  Hence the rendezvous can be executed in stamp order: no rank
-   waits for a rank that waits for it.
-   FULL STATEMENT NOT PROVED (hence _partial): an operational semantics of blocking Ssend/Recv in which every maximal
-   execution of the P programs terminates with all programs empty; missing: the generic lemma "stamps increasing along
-   every program + matching => the stamp-ordered execution is enabled step by step, and enabled steps persist". *)
-Theorem C04_ring_no_deadlock_partial : forall P rank, 2 <= P -> rank < P ->
+(* THE RING CANNOT DEADLOCK (operational).  Every rank executes its literal program c04_ring_ops (P-1 rounds; even ranks
+   MPI_Ssend then MPI_Recv, odd ranks MPI_Recv then MPI_Ssend; the two buffers alternating).  A step = one rendezvous: some
+   rank blocked in Ssend(to q) meets rank q blocked in Recv(from it); the sender's p_out is copied into the receiver's p_in and
+   the receiver calls unpackCreateRemote with remoteProc = (rank+procs-proc)%procs.  For every P >= 2 (odd P included), every
+   configuration reachable in n steps by ANY interleaving:
+     - is final (all programs finished) or has a successor (progress: no deadlock),
+     - has exactly 2*P*(P-1) - 2*n calls left (so every execution has exactly P*(P-1) steps and ends in a final configuration),
+     - if final, every rank has unpacked exactly the sequence of (remoteProc, buffer) that C04_ring_complete describes. *)
+Theorem C04_ring_no_deadlock : forall P msgs n cfg, 2 <= P -> length msgs = P -> c04_ring_reach P msgs n cfg ->
+  (c04_ring_final P cfg \/ exists cfg', c04_ring_step P cfg cfg') /\
+  c04_ring_remaining P cfg + 2 * n = 2 * P * (P - 1) /\
+  (c04_ring_final P cfg -> forall p, p < P -> c04_rk_arr (cfg p) = c04_ring_arrivals P p msgs).
+Proof. exact P_ring_no_deadlock. Qed.
+Print Assumptions C04_ring_no_deadlock.
+
+(* THE NEIGHBOUR MODE TERMINATES.  Every rank posts MPI_Issend to each hinted neighbour, then does |hints| times
+   (MPI_Probe(MPI_ANY_SOURCE); MPI_Recv from the probed rank), then MPI_Waitall.  A step = one Issend posted, or one rank
+   (all its sends posted, probes left) receiving from ANY rank that has a posted unmatched send to it.  With consistent hints
+   (valid ranks, no duplicates, not the rank itself, symmetric), every reachable configuration is final (Waitall returns
+   everywhere) or has a successor, every step decreases the measure 2*unposted + unmatched + probes left, and in a final
+   configuration every rank has received from exactly its hinted neighbours, once each, in whatever order. *)
+Theorem C04_neighbour_mode_terminates : forall P hints cfg, c04_hints_consistent P hints -> c04_nb_reach P hints cfg ->
+  (c04_nb_final P cfg \/ exists cfg', c04_nb_step P cfg cfg') /\
+  (forall cfg', c04_nb_step P cfg cfg' -> c04_nb_measure P cfg' < c04_nb_measure P cfg) /\
+  (c04_nb_final P cfg -> forall q, q < P -> Permutation (c04_nb_arr (cfg q)) (nth q hints [])).
+Proof. exact P_neighbour_mode_terminates. Qed.
+Print Assumptions C04_neighbour_mode_terminates.
+
+(* what happens with ASYMMETRIC hints (excluded by the property's "consistent"): rank 0 names rank 1 but rank 1 names nobody;
+   rank 0 posts its send and probes for a message nobody sends: a reachable non-final configuration without successor *)
+Theorem C04_neighbour_mode_asymmetric_hints_deadlock :
+  exists cfg, c04_nb_reach 2 [[1]; []] cfg /\ ~ c04_nb_final 2 cfg /\ forall cfg', ~ c04_nb_step 2 cfg cfg'.
+Proof. exact P_neighbour_asymmetric_deadlock. Qed.
+Print Assumptions C04_neighbour_mode_asymmetric_hints_deadlock.
+
+(* auxiliary (used to find the proof, kept as a fact about the schedule): a time stamp 3*round + phase for every rendezvous
+   under which the calls of every rank are strictly increasing (phases: even->odd sends, then for odd P the send P-1 -> 0,
+   then the sends of the odd ranks) *)
+Theorem C04_ring_stamp_order : forall P rank, 2 <= P -> rank < P ->
   c04_increasing (map (fun x => c04_stamp P (c04_rdv_of rank x)) (c04_ring_ops P rank)).
 Proof. exact P_ring_order. Qed.
-Print Assumptions C04_ring_no_deadlock_partial.
+Print Assumptions C04_ring_stamp_order.
 
 Theorem C04_ring_matching : forall P p k q, 2 <= P -> p < P ->
   In (k, C04_Ssend q) (c04_ring_ops P p) ->
@@ -271,3 +301,40 @@ Example C04_example_history :
   option_map (fun l => nth 0 l C04_Mixed) (c04_ob_map _ (c04_sy_obj _ y)) = Some (C04_Ok (c04_spec_rank false false false dB 0)) /\
   length (c04_spec_rank false false false dB 0) = 2.
 Proof. vm_compute. repeat split; reflexivity. Qed.
+
+(* executions of the ring by vm_compute: P = 3 (odd: ranks 2 and 0 are both even) in stamp order, and P = 4 under two
+   different interleavings; all programs finish, and every rank ends with the arrivals of C04_ring_complete *)
+Definition ex_msgs3 := c04_msgs false true ex_d.
+Example C04_example_ring_exec3 :
+  match c04_ring_run 3 (c04_ring_init 3 ex_msgs3) [0; 2; 1; 0; 2; 1] with
+  | Some cfg => map (fun p => c04_rk_prog (cfg p)) [0; 1; 2] = [[]; []; []] /\
+                map (fun p => c04_rk_arr (cfg p)) [0; 1; 2] = map (fun p => c04_ring_arrivals 3 p ex_msgs3) [0; 1; 2]
+  | None => False
+  end /\
+  (* rank 0 cannot start with its receive partner: the first rendezvous of rank 2 (to rank 0) is not enabled initially *)
+  c04_ring_enabled (c04_ring_init 3 ex_msgs3) 2 = None /\ c04_ring_enabled (c04_ring_init 3 ex_msgs3) 0 = Some (1, 1, 1).
+Proof. vm_compute. repeat split; reflexivity. Qed.
+
+Definition ex_msgs4 := c04_msgs false false [(ex_s0, []); (ex_s1, []); (ex_s2, []); (ex_s0, [])].
+Example C04_example_ring_exec4 :
+  let fin := fun o => match o with
+    | Some cfg => map (fun p => c04_rk_prog (cfg p)) [0; 1; 2; 3] = [[]; []; []; []] /\
+                  map (fun p => c04_rk_arr (cfg p)) [0; 1; 2; 3] = map (fun p => c04_ring_arrivals 4 p ex_msgs4) [0; 1; 2; 3]
+    | None => False end in
+  fin (c04_ring_run 4 (c04_ring_init 4 ex_msgs4) [0; 2; 1; 3; 0; 2; 1; 3; 0; 2; 1; 3]) /\
+  fin (c04_ring_run 4 (c04_ring_init 4 ex_msgs4) [2; 0; 3; 1; 2; 0; 1; 3; 0; 2; 3; 1]).
+Proof. vm_compute. repeat split; reflexivity. Qed.
+
+(* neighbour mode, P = 3, complete hint graph: two different probe orders both end with Waitall returning everywhere *)
+Example C04_example_neighbour_exec3 :
+  let hints := [[1; 2]; [0; 2]; [1; 0]] in
+  let fin := fun o => match o with
+    | Some cfg => map (fun p => (c04_nb_topost (cfg p), c04_nb_posted (cfg p), c04_nb_nrecv (cfg p))) [0; 1; 2] = [([], [], 0); ([], [], 0); ([], [], 0)]
+    | None => False end in
+  fin (c04_nb_run (c04_nb_init hints) [inl 0; inl 0; inl 1; inl 1; inl 2; inl 2; inr (0, 2); inr (0, 1); inr (1, 0); inr (1, 2); inr (2, 1); inr (2, 0)]) /\
+  fin (c04_nb_run (c04_nb_init hints) [inl 1; inl 0; inl 2; inl 1; inr (1, 0); inl 0; inl 2; inr (2, 1); inr (0, 1); inr (1, 2); inr (0, 2); inr (2, 0)]) /\
+  (forall p, p < 3 -> NoDup (nth p hints [])) .
+Proof.
+  vm_compute. repeat split; try reflexivity.
+  intros p Hp. destruct p as [|[|[|p]]]; [| | |lia]; repeat constructor; simpl; intuition discriminate.
+Qed.
